@@ -46,11 +46,13 @@ def oracle_F(ops):
 
 # what the Any stores as a function of the form of setParam's argument (independent copy of Model.store_of): arrays and
 # literals decay to const char* (4), an Any argument contributes its payload type, an empty Any empties, no promotion
-STORE_OF = {0: 0, 1: 1, 2: 2, 3: 3, 4: 4, 5: 4, 6: 4, 7: 0, 8: 1, 9: 2, 10: None, 11: 5, 12: 6}
+STORE_OF = {0: 0, 1: 1, 2: 2, 3: 3, 4: 4, 5: 4, 6: 4, 7: 0, 8: 1, 9: 2, 10: None, 11: 5, 12: 6, 13: 7}
 LITS = [7, 41, 305, 4096]
+EQ_FLOATS_PO = [90, 91, 90, 91, 92, 93]      # ParameterizedObject float codes: +0.0f, -0.0f, NaN, -NaN (harness pfEnc)
+EQ_VALUES_F = [0, 91, 0, 91, 92, 93, 7, 57, 7, 57]   # FlatMap value codes: +0/-0/NaNs for float values, v / v+50 for the struct
 FORMS = {"0": "int", "1": "float", "2": "std::string", "3": "vec3f", "4": "string literal const char[N]", "5": "char[8] variable",
          "6": "const char* variable", "7": "Any(int)", "8": "Any(float)", "9": "Any(std::string)", "10": "empty Any", "11": "short",
-         "12": "enum"}
+         "12": "enum", "13": "{key,shadow} struct with key-only operator=="}
 
 
 def oracle_P(ops):
@@ -156,7 +158,7 @@ def gen_F(r, maxlen, nkeys):
     for _ in range(r.randint(1, maxlen)):
         k = r.randint(1, nkeys)
         c = r.random()
-        if c < 0.30: ops.append("set:%d:%d" % (k, r.randint(1, 99)))
+        if c < 0.30: ops.append("set:%d:%d" % (k, r.choice(EQ_VALUES_F) if r.random() < 0.3 else r.randint(1, 99)))
         elif c < 0.40: ops.append("idx:%d" % k)
         elif c < 0.52: ops.append("erase:%d" % k)
         elif c < 0.57: ops.append("at:%d" % k)
@@ -177,11 +179,16 @@ def gen_P(r, maxlen, nnames):
         c = r.random()
         if c < 0.30:
             # half of the writes use an argument form whose static type differs from the stored type (or short/enum)
-            form = r.randint(0, 3) if r.random() < 0.5 else r.randint(4, 12)
-            ops.append("set:%d:%d:%d" % (n, form, r.choice(LITS) if form == 4 else r.randint(1, 99)))
+            form = r.randint(0, 3) if r.random() < 0.5 else r.randint(4, 13)
+            v = r.choice(LITS) if form == 4 else r.randint(1, 99)
+            if form in (1, 8) and r.random() < 0.5:
+                v = r.choice(EQ_FLOATS_PO)          # +0.0f / -0.0f (== but different bits), two NaNs (!= themselves)
+            elif form == 13 and r.random() < 0.5:
+                v = r.choice([7, 57, 7, 57, 21, 71])    # same key, different shadow: == but distinguishable
+            ops.append("set:%d:%d:%d" % (n, form, v))
         elif c < 0.62:
             # reads: the four plain types, const char* more often (the stored type of three forms), short, enum
-            tag = r.choice([0, 1, 2, 3, 4, 4, 4, 5, 6, 0, 1, 2])
+            tag = r.choice([0, 1, 1, 2, 3, 4, 4, 4, 5, 6, 7, 7, 0, 1, 2])
             ops.append("get:%d:%d:%d" % (n, tag, r.randint(100, 199)))
         elif c < 0.74: ops.append("rm:%d" % n)
         elif c < 0.82: ops.append("has:%d" % n)
@@ -208,10 +215,10 @@ def report(ctx, exe, cases, impls, mism, crashes):
         if (label in crashes) or label in seen:
             continue
         seen.add(label)
-        mode = [a for (l, e, a) in impls if l == label][0]
+        exe, mode = [(e, a) for (l, e, a) in impls if l == label][0]
         kind, ops = split_case(cases[i])
 
-        def fails(ops, mode=mode, kind=kind):
+        def fails(ops, mode=mode, kind=kind, exe=exe):
             line = kind + " " + " ".join(ops)
             rc, out, err = ctx.run_exe(exe, mode, stdin=line + "\n")
             return out.strip("\n") != oracle(line)
@@ -327,8 +334,10 @@ def run(ctx):
                 "as broken too: %s)\n  extractor notes: %s\n  the differential run below looks for a concrete failing history"
                 % (", ".join("%s.v:%s" % f for f in first) or "?", ", ".join(bad_facts), facts.get("notes")))
     model = ctx.extract(snippets=["conv_N.ml"])
-    exe = ctx.cxx(["harness.cpp"], "harness", repo_sources=REPO_SRC, sanitize="asan")
-    if not model or not exe:
+    # the harness is built as two programs in parallel (FlatMap part / ParameterizedObject part)
+    exe, exe_po = ctx.cxx_many([dict(sources=["harness.cpp"], out="harness_fm", flags=["-DC10_NO_PO"], sanitize="asan"),
+                                dict(sources=["harness.cpp"], out="harness_po", flags=["-DC10_NO_FM"], repo_sources=REPO_SRC, sanitize="asan")])
+    if not model or not exe or not exe_po:
         return
     r = ctx.rng("cases")
     cases = []
@@ -343,10 +352,22 @@ def run(ctx):
     cases += exh
     impls = [("FlatMap<int,int>", exe, ["ii"]), ("FlatMap<string,string>", exe, ["ss"]),
              ("FlatMap<string,vector<int>>", exe, ["sv"])]
+    pimpls = [("ParameterizedObject", exe_po, ["P"])]
+    all_cases = cases
+    pcases = [c for c in all_cases if c.startswith("P ")]
+    cases = [c for c in all_cases if c.startswith("F ")]
     mism, crashes, mlines = vlib.differential(ctx, cases, model, impls)
-    ctx.count(len(cases) * len(impls))
+    pmism, pcrashes, pmlines = vlib.differential(ctx, pcases, model, pimpls)
+    ctx.count(len(cases) * len(impls) + len(pcases))
+    # value types with ==-equal but distinguishable values (+-0.0f, NaNs; key-only == struct), decoded bit-exactly: the FlatMap
+    # histories only (random ones and the exhaustive ones up to length 3)
+    vcases = [c for c in all_cases[:ncorp + nrand] if c.startswith("F ")] + list(exhaustive_F(3))
+    vimpls = [("FlatMap<int,float>", exe, ["if"]), ("FlatMap<int,{key,shadow}>", exe, ["ih"])]
+    vmism, vcrashes, _ = vlib.differential(ctx, vcases, model, vimpls)
+    ctx.count(len(vcases) * len(vimpls))
+    ctx.cov["value_identity_runs"] = {"instantiations": [l for (l, _, _) in vimpls], "cases": len(vcases), "mismatches": len(vmism)}
     hist = {}
-    for c, ml in zip(cases, mlines):
+    for c, ml in zip(cases + pcases, mlines + pmlines):
         ops = c.split()[1:]
         for t in ops:
             hist[c[0] + ":" + t.split(":")[0]] = hist.get(c[0] + ":" + t.split(":")[0], 0) + 1
@@ -363,7 +384,9 @@ def run(ctx):
                                                                  "every run by fact ff_const_index_uninstantiable"},
                                 "ParameterizedObject": "declares no const member function (closed list coq/C10/FactsDecls.v)"}
     ctx.cov["setParam_argument_forms"] = {"forms": FORMS, "stored_type_of_form": STORE_OF,
-                                          "read_types": ["int", "float", "std::string", "vec3f", "const char*", "short", "enum"],
+                                          "read_types": ["int", "float", "std::string", "vec3f", "const char*", "short", "enum", "{key,shadow} struct"],
+                                          "equal_but_distinguishable_values": "float +0.0f/-0.0f and two NaNs (codes 90..93), struct codes v and v+50 "
+                                                                              "(same key, other shadow); dumps and reads decode bit patterns / all fields",
                                           "set_by_form": {f: hist.get("P:set:" + f, 0) for f in FORMS}}
     ctx.cov["case_mix"] = {"corpus": ncorp, "random": nrand, "exhaustive_flatmap_histories": len(exh)}
     ctx.rule = ("histories over key/name alphabets of size 2-4 (random, length<=60) plus all FlatMap histories up to length %d over a "
@@ -371,11 +394,14 @@ def run(ctx):
                 "(values set as int/float/string/vec3f and through every argument form whose static type differs from what Any stores: string literals of 4 lengths, char[8], const char*, Any holding int/float/string, empty Any, short, enum; read back as int/float/string/vec3f/const char*/short/enum); plus FlatMap<float,int>/<short,int>/<unsigned char,int>/<string,int> called with double / out-of-range and negative int / const char* "
                 "arguments (random length<=40 and all histories up to length %d over a 10-op alphabet, two spellings per key); "
                 "non-trivial = the container passed through >=3 distinct contents" % (ctx.pick(4, 5), ctx.pick(3, 4)))
-    for c in cases[ncorp:ncorp + 3]:
-        ctx.sample({"case": c, "model_and_impl": mlines[cases.index(c)][:300]})
+    for cs, ms in ((cases, mlines), (pcases, pmlines)):
+        for c, ml in list(zip(cs, ms))[:2]:
+            ctx.sample({"case": c, "model_and_impl": ml[:300]})
     report(ctx, exe, cases, impls, mism, crashes)
+    report(ctx, exe_po, pcases, pimpls, pmism, pcrashes)
+    report(ctx, exe, vcases, vimpls, vmism, vcrashes)
     wide_arguments(ctx, model, exe, r, bad_facts)
-    ctx.cov["mismatches"] = len(mism)
+    ctx.cov["mismatches"] = len(mism) + len(pmism) + len(vmism)
     if bad_facts and not ctx.violations:
         ctx.log("no concrete failing history found although source facts are broken: reported as no-failing-input-found")
     ctx.trusted += ["correspondence harness harness/C10/harness.cpp + generators/oracle in props/C10/check.py (g++ -O1, ASan+UBSan)",
